@@ -291,6 +291,36 @@ def run_histories(c, rnd, n_steps, pna_tag="c10"):
     return cases, outcomes, oracle
 
 
+WITNESS_CASE = None
+
+
+def replay_finding(c):
+    """known finding acl-modify-remove-same: `acl set -m u:alice:w -x u:alice` on an entry whose general ACL
+    group comes first and empties is not idempotent (the emptied group moves behind the other platforms)"""
+    ex = [("faCl", b""), ("faCe", b":u:alice:allow:r"), ("faCl", b"linux"), ("faCe", b":u:bob:allow:r")]
+    e = {"kind": 0, "name": "f", "data": b"hi", "comp": 0, "enc": 0, "mode": 0, "ctime": None, "mtime": None, "atime": None,
+         "perm": None, "xattrs": [], "extras": ex}
+    cmd = {"name": "acl", "patterns": ["*"], "exclude": [], "modify": (False, "u", "alice", ["w"]), "remove": (False, "u", "alice", None)}
+    with cli.Sandbox("c10w") as sb:
+        p = sb.path("w.pna")
+        X.mkarchive([("entry", e)], p)
+        before, _ = cli.dump([p], X.PW)
+        r1 = cli.run_pna(X.argv(cmd, p, "keepsolid", None), cwd=sb.root)
+        once, _ = cli.dump([p], X.PW)
+        r2 = cli.run_pna(X.argv(cmd, p, "keepsolid", None), cwd=sb.root)
+        twice, _ = cli.dump([p], X.PW)
+    case = "\t".join(["apply", "keepsolid", "0", "acl", "%s,%s" % (X.aclspec_case(cmd["modify"]), X.aclspec_case(cmd["remove"])), "1",
+                      X.hx("f"), "", X.render(before)])
+    still = r1["rc"] == 0 and r2["rc"] == 0 and X.render(once) != X.render(twice)
+    for f in c.findings:
+        if f["id"] == "acl-modify-remove-same":
+            if f["case"] != case:
+                c.notes.append("known finding acl-modify-remove-same: recorded case text differs from the replayed one")
+            if still:
+                c.finding_hit.add(f["id"])
+    return case, "OK " + X.render(once), still
+
+
 def run(tier, seed, replay=None):
     c = Check("C10", tier, seed)
     c.rule = ("one evaluation = one step of an editing history: a generated archive (plain / solid / mixed / encrypted / encrypted solid / "
@@ -304,6 +334,8 @@ def run(tier, seed, replay=None):
     X.build()
     rnd = random.Random(seed)
     cases, outcomes, oracle = run_histories(c, rnd, STEPS.get(tier, 150))
+    wcase, wout, still = replay_finding(c)       # the model must predict the first application of the witness too
+    cases.append(wcase); outcomes.append(wout)
     c.correspondence_py("transform", cases, outcomes, oracle)
     return c.finish("proof", ["Coq 8.16.1 kernel and VM", "ExtrOcamlBasic extraction + modelrun/driver.ml",
                               "harness/src/bin/{mkarchive,dump,globtab}.rs", "vlib/cli.py, props/_xform.py (history generation, rendering)"])
